@@ -140,3 +140,12 @@ add("C12",
     "point. Six accepted-but-failing shapes are recorded as known findings.",
     "catalogue of 31 accepted + 5 rejected shapes; 2 agents; CrossHair timeout 200 s; shapes outside the catalogue are outside the claim",
     "DESIGN.md section 7 C12", technique="CrossHair (z3) on the validators; abstract tracing + symbolic execution of the real JAX pipeline with path forking (z3) for completion", engine="symjax+crosshair")
+add("C17",
+    "(i) create_filter_mask is executed symbolically with every filter a symbolic boolean table over (period, its variables): each "
+    "mask entry is decided equal to the conjunction of the filters on the product of the restricted grids in canonical axis order. "
+    "(ii) the real bodies of create_combination_grid, _combine_masks, create_indexers_and_segments and create_state_choice_space "
+    "run on a symbolic mask through a numpy look-alike with symbolic lengths: stored combinations = passing combinations in "
+    "row-major order, state indexer = rank or -1, segments group by that rank, num_segments, full grids for unrestricted variables.",
+    "mask shapes up to 12 (thorough 16) cells, 1-3 filters; the numpy look-alike (vf/symnp.py) is validated against real numpy on "
+    "concrete masks on every run",
+    "DESIGN.md section 7 C17", technique="symbolic execution of the real JAX code (filter mask) and of the real numpy function bodies on a symbolic-length array model + z3", engine="symjax+symnp")
